@@ -11,6 +11,7 @@ import (
 	"math/rand"
 	"net"
 	"os"
+	"strings"
 	"time"
 
 	"github.com/golang/protobuf/proto"
@@ -85,10 +86,145 @@ func loadConfig(path string) (*pb.ServerConfig, error) {
 		return nil, err
 	}
 
+	// The text parser folds repeated entries of a map into one (the last one wins): refuse a file
+	// which lists the same client twice instead of silently dropping an entry.
+	if key, dup := duplicateClientKey(string(data)); dup {
+		return nil, fmt.Errorf("client %q is configured more than once", key)
+	}
+
 	conf := &pb.ServerConfig{}
 	err = proto.UnmarshalText(string(data), conf)
 	if err != nil {
 		return nil, err
 	}
 	return conf, nil
+}
+
+// duplicateClientKey scans a text format config for top level 'client' entries and reports
+// the first key which appears in more than one of them.
+// Anything this scanner does not understand is left to the real parser.
+func duplicateClientKey(text string) (string, bool) {
+	type token struct {
+		kind byte // 'i' identifier/number, 's' string, else the punctuation character itself.
+		val  string
+	}
+	var toks []token
+	for i := 0; i < len(text); {
+		c := text[i]
+		switch {
+		case c == ' ' || c == '\t' || c == '\r' || c == '\n':
+			i++
+		case c == '#':
+			for i < len(text) && text[i] != '\n' {
+				i++
+			}
+		case c == '"' || c == '\'':
+			j := i + 1
+			var sb []byte
+			for j < len(text) && text[j] != c && text[j] != '\n' {
+				if text[j] == '\\' && j+1 < len(text) {
+					j++
+					switch e := text[j]; {
+					case e == 'n':
+						sb = append(sb, '\n')
+					case e == 'r':
+						sb = append(sb, '\r')
+					case e == 't':
+						sb = append(sb, '\t')
+					case e == 'x' || e == 'X':
+						v, n := 0, 0
+						for n < 2 && j+1 < len(text) && hexVal(text[j+1]) >= 0 {
+							v = v*16 + hexVal(text[j+1])
+							j++
+							n++
+						}
+						sb = append(sb, byte(v))
+					case e >= '0' && e <= '7':
+						v, n := int(e-'0'), 1
+						for n < 3 && j+1 < len(text) && text[j+1] >= '0' && text[j+1] <= '7' {
+							v = v*8 + int(text[j+1]-'0')
+							j++
+							n++
+						}
+						sb = append(sb, byte(v))
+					default:
+						sb = append(sb, e)
+					}
+					j++
+					continue
+				}
+				sb = append(sb, text[j])
+				j++
+			}
+			toks = append(toks, token{'s', string(sb)})
+			i = j + 1
+		case strings.IndexByte("{}<>:;,[]", c) >= 0:
+			toks = append(toks, token{c, ""})
+			i++
+		default:
+			j := i
+			for j < len(text) && strings.IndexByte(" \t\r\n#\"'{}<>:;,[]", text[j]) < 0 {
+				j++
+			}
+			toks = append(toks, token{'i', text[i:j]})
+			i = j
+		}
+	}
+
+	seen := make(map[string]bool)
+	depth := 0
+	inClient := false
+	hasKey := false
+	key := ""
+	for i := 0; i < len(toks); i++ {
+		t := toks[i]
+		switch {
+		case t.kind == '{' || t.kind == '<':
+			depth++
+		case t.kind == '}' || t.kind == '>':
+			depth--
+			if depth == 0 && inClient {
+				if hasKey {
+					if seen[key] {
+						return key, true
+					}
+					seen[key] = true
+				}
+				inClient = false
+			}
+		case t.kind == 'i' && depth == 0 && t.val == "client":
+			j := i + 1
+			if j < len(toks) && toks[j].kind == ':' {
+				j++
+			}
+			if j < len(toks) && (toks[j].kind == '{' || toks[j].kind == '<') {
+				inClient, hasKey, key = true, false, ""
+			}
+		case t.kind == 'i' && depth == 1 && inClient && t.val == "key":
+			j := i + 1
+			if j < len(toks) && toks[j].kind == ':' {
+				j++
+			}
+			if j < len(toks) && toks[j].kind == 's' {
+				hasKey, key = true, ""
+				for ; j < len(toks) && toks[j].kind == 's'; j++ {
+					key += toks[j].val // adjacent strings are concatenated.
+				}
+				i = j - 1
+			}
+		}
+	}
+	return "", false
+}
+
+func hexVal(c byte) int {
+	switch {
+	case c >= '0' && c <= '9':
+		return int(c - '0')
+	case c >= 'a' && c <= 'f':
+		return int(c-'a') + 10
+	case c >= 'A' && c <= 'F':
+		return int(c-'A') + 10
+	}
+	return -1
 }
